@@ -27,6 +27,17 @@ COND_MAX = 1e5        # conditioning guard of the evaluation of num(jw), den(jw)
 EPS_TABLE = [float(np.finfo(float).eps ** (1 / k)) for k in range(1, 40)]
 TOL2 = Fraction(1e-4) ** 2
 _ORIG_ROOTS = np.roots
+_ORIG_MIN_SCALAR = scipy.optimize.minimize_scalar
+TAU_MIN = 1e-3        # a reported discrete stability margin is "not the minimum" when a point of the unit
+#                       circle has |1+L| smaller by more than this factor (observed for converged runs of the
+#                       unchanged code: <= 1e-5, typically 1e-12)
+SM_ZERO = 1e-6        # below this the closed loop has a pole on the unit circle: |1+L| has a kink, not simple
+THETA_GRID = np.linspace(0.0, math.pi, 4097)
+Z_GRID = np.exp(1j * THETA_GRID)
+# time scales of the continuous-time loops L0(s/a) (exact in binary64: powers of two), sampling periods
+WSCALES = [-40, -34, -30, -30, -30, -24, -20, -10, 10, 20, 30, 40]
+DT_LEGACY = ["T", "D1/2", exact.dt_tok(0.1)]
+DT_WIDE = ["D2", "D2", "D4", "D5/2", "D10", "D64", "D1/1024", "D3", "D1000"]
 
 
 # ----------------------------------------------------------------------------------------------
@@ -141,6 +152,22 @@ def abs_eval(p, r):
     return acc
 
 
+def abs_eval_exact(p, r):
+    """sum |c_k| r^k as a Fraction (no overflow / underflow for time-scaled loops)"""
+    acc = F0
+    for c in p:
+        acc = acc * r + abs(c)
+    return acc
+
+
+def ratio(a, b):
+    """float(a / b) for Fractions of any magnitude (b != 0)"""
+    try:
+        return float(a / b)
+    except OverflowError:
+        return math.inf
+
+
 def resp_exact(num, den, z):
     nr, ni = ceval(num, z)
     dr, di = ceval(den, z)
@@ -227,6 +254,103 @@ def dt_value(t):
     return float(Fraction(t[1:]))
 
 
+def mant_bits(c):
+    """width of the binary mantissa of a dyadic rational (99: not dyadic)"""
+    d = c.denominator
+    if d & (d - 1):
+        return 99
+    n = abs(c.numerator)
+    if n == 0:
+        return 0
+    return (n >> ((n & -n).bit_length() - 1)).bit_length()
+
+
+def wscale_of(case):
+    """time scale a of a continuous-time case: the loop is L0(s/a), a = 2^k"""
+    k = case.get("wscale")
+    if k is None:
+        return F1
+    k = int(k)
+    return Fraction(2) ** k
+
+
+def case_coeffs(case):
+    """exact coefficient lists of the loop: `num`, `den` of the case describe L0; with a time scale a the
+    loop is L0(s/a), written with a monic denominator (`norm` = "monic": num, den times a^q) or with the
+    constant terms of L0 (`norm` = "const": coefficient of s^k divided by a^k)"""
+    num = [Fraction(x) for x in case["num"]]
+    den = [Fraction(x) for x in case["den"]]
+    a = wscale_of(case)
+    if a == 1:
+        return num, den
+    q = len(den) - 1
+    if case.get("norm", "monic") == "monic":
+        den = [c * a ** i for i, c in enumerate(den)]
+        num = [c * a ** (i + len(den) - len(num)) for i, c in enumerate(num)]
+    else:
+        den = [c / a ** (q - i) for i, c in enumerate(den)]
+        num = [c / a ** (len(num) - 1 - i) for i, c in enumerate(num)]
+    return num, den
+
+
+def eff_epsw(case):
+    """epsw of the call: the case gives it in units of the time scale"""
+    return Fraction(case.get("epsw", "0")) * wscale_of(case)
+
+
+def unit_of(case):
+    """the frequency that counts as 'of order one' for this case (absolute frequency tolerances and the
+    not-simple guards are relative to it)"""
+    if case["dt"] == "C":
+        return float(wscale_of(case))
+    dtv = float(dt_value(case["dt"]))
+    return min(1.0, 1.0 / dtv)
+
+
+def circle_point(theta):
+    """a point EXACTLY on the unit circle (rational parametrisation) within 1e-7 of exp(j theta), 0 <= theta <= pi"""
+    theta = min(max(float(theta), 0.0), math.pi)
+    if theta <= math.pi / 2:
+        t = Fraction(math.tan(theta / 2)).limit_denominator(1 << 26)
+        d = 1 + t * t
+        return ((1 - t * t) / d, 2 * t / d)
+    u = Fraction(math.tan((math.pi - theta) / 2)).limit_denominator(1 << 26)
+    d = 1 + u * u
+    return (-(1 - u * u) / d, 2 * u / d)
+
+
+def sm_witness_angles(num, den, nmax=6):
+    """angles in [0, pi] where |1 + L(exp(j theta))| is locally smallest on a 4097-point grid, each refined by
+    a bounded scalar minimisation between its grid neighbours (unverified search: the model evaluates the
+    candidates exactly)"""
+    nf = np.array([float(c) for c in num])
+    df = np.array([float(c) for c in den])
+
+    def f(z):
+        with np.errstate(all="ignore"):
+            v = np.abs(1 + np.polyval(nf, z) / np.polyval(df, z))
+        return np.where(np.isfinite(v), v, np.inf)
+    fv = f(Z_GRID)
+    n = len(fv)
+    left = np.concatenate(([np.inf], fv[:-1]))
+    right = np.concatenate((fv[1:], [np.inf]))
+    idx = np.nonzero((fv <= left) & (fv <= right) & np.isfinite(fv))[0]
+    idx = sorted(idx, key=lambda i: fv[i])[:nmax]
+    out = []
+    for i in idx:
+        best = float(THETA_GRID[i])
+        lo, hi = float(THETA_GRID[max(i - 1, 0)]), float(THETA_GRID[min(i + 1, n - 1)])
+        try:
+            r = _ORIG_MIN_SCALAR(lambda t: float(f(np.exp(1j * t))), bounds=(lo, hi), method="bounded",
+                                 options={"xatol": 1e-11})
+            if r.fun < fv[i]:
+                best = float(r.x)
+        except Exception:  # noqa  (the search is best effort)
+            pass
+        out.append(best)
+    return out
+
+
 def classify_exc(e):
     msg = str(e)
     if isinstance(e, ValueError):
@@ -245,6 +369,8 @@ class Recorder:
     def __init__(self):
         self.roots = {}
         self.minimize = None
+        self.minimize_x0 = None
+        self.minimize_bounds = None
         self.root_scalar = None
         self.warned_fallback = False
 
@@ -262,6 +388,13 @@ class Recorder:
             res = rec._min(*a, **k)
             if inspect.stack()[1].function == "_poly_z_wstab":
                 rec.minimize = (bool(res.success), np.array(res.x, copy=True))
+                try:
+                    x0 = k["x0"] if "x0" in k else a[1]
+                    rec.minimize_x0 = [float(v) for v in np.atleast_1d(x0)]
+                    b = k.get("bounds")
+                    rec.minimize_bounds = None if b is None else [float(b[0][0]), float(b[0][1])]
+                except Exception:  # noqa
+                    pass
             return res
 
         def root_scalar(f, *a, **k):
@@ -284,8 +417,9 @@ class Recorder:
 
 
 def build(case):
-    num = [float(Fraction(x)) for x in case["num"]]
-    den = [float(Fraction(x)) for x in case["den"]]
+    num, den = case_coeffs(case)
+    num = [float(x) for x in num]
+    den = [float(x) for x in den]
     sys = ct.tf(num, den, dt_value(case["dt"]))
     if case.get("form") == "ss":
         sys = ct.tf2ss(sys)
@@ -315,12 +449,12 @@ def sm_of(r):
     return math.hypot(float(r[0]) + 1.0, float(r[1]))
 
 
-def close_rel(a, b, tau):
+def close_rel(a, b, tau, unit=1.0):
     if math.isinf(a) or math.isinf(b):
         return a == b
     if math.isnan(a) or math.isnan(b):
         return math.isnan(a) and math.isnan(b)
-    return abs(a - b) <= tau * max(1.0, abs(b))
+    return abs(a - b) <= tau * max(unit, abs(b))
 
 
 def close_deg(a, b):
@@ -348,8 +482,9 @@ class C12(Family):
     externals = [
         "numpy.roots (returns all complex roots of the polynomial it is given; the polynomial is "
         "compared with the exactly recomputed one and the residual of every recorded root is recorded)",
-        "scipy.optimize.minimize in _poly_z_wstab (discrete-time minimiser of |1+L|; only the value at "
-        "the returned point is checked)",
+        "scipy.optimize.minimize in _poly_z_wstab (discrete-time minimiser of |1+L|; the value at the returned "
+        "point is checked, and minimality is refuted exactly by the model on candidate points of the unit circle "
+        "found by an unverified grid search; x0 and bounds handed to it are recorded)",
         "scipy.optimize.root_scalar(bisect) in bandwidth (bracket compared, residual at the root checked)",
         "freqplot._default_frequency_range (the sampling grid of bandwidth is taken from the implementation)",
         "abs/angle/exp/10**x (evaluated in binary64 by the harness on the model's exact complex values)"]
@@ -359,12 +494,22 @@ class C12(Family):
         "IEEE arithmetic is exact on integer/dyadic coefficient products below 2^50 (regime E: the "
         "polynomial given to numpy.roots must equal the model's coefficient list exactly)",
         "discrete time is modelled for epsw = 0; the FRD-based method (method='frd', 3-tuple input, "
-        "the numerical-inaccuracy fallback) is outside the model"]
+        "the numerical-inaccuracy fallback) is outside the model",
+        "time-scaled loops use powers of two only (uniform scaling, exact in binary64); frequency tolerances and "
+        "the not-simple guards are relative to the time scale (continuous) / to min(1, 1/dt) (discrete)",
+        "a discrete stability margin is reported as not minimal only when a candidate on the unit circle has "
+        "|1+L| smaller by more than 1e-3 relative and the minimum is above 1e-6 (below: closed-loop pole on "
+        "the unit circle, |1+L| not smooth)"]
     rule = ("SISO loops built from integer/dyadic factors (order 1-6, integrators, lightly damped and "
-            "unstable factors, both gain signs, gains 1/8..40), continuous and discrete time, TF and SS "
-            "form, returnall / default, epsw in {0, 1/2, 2}, stability_margins / margin / "
-            "phase_crossover_frequencies / bandwidth (dbdrop in {-3,-6,-1/2,-20, 0, 3}); non-trivial = order >= 2 "
-            "or a non-default option; distinct = distinct canonical serialisation")
+            "unstable factors, both gain signs, gains 1/8..40), continuous and discrete time (sampling periods "
+            "1, 1/2, 0.1 and 2, 5/2, 3, 4, 10, 64, 1000, 1/1024), 30 % of the continuous loops time-scaled to "
+            "L0(s/a) with a = 2^k, k in {-40..-10, 10..40} (crossover frequencies 1e-12..1e12, exact in binary64; "
+            "epsw scaled with a), TF and SS form, returnall / default, epsw in {0, 1/8, 1/2, 2}, stability_margins / "
+            "margin / phase_crossover_frequencies / bandwidth (dbdrop in {-3,-6,-1/2,-20, 0, 3}); for every "
+            "discrete stability_margins case up to 6 candidate points exactly on |z| = 1 (local minima of |1+L| on a "
+            "4097-point grid, refined) are handed to the model, which refutes a reported stability margin that "
+            "is not the minimum; non-trivial = order >= 2 or a non-default option; distinct = distinct canonical "
+            "serialisation")
 
     def __init__(self):
         self._cache = {}
@@ -414,10 +559,28 @@ class C12(Family):
         num = [k * c for c in num]
         return [tok(c) for c in num], [tok(c) for c in den]
 
+    def rnd_dt(self, rng):
+        """sampling period: the ordinary ones, and long / very short ones (frequencies are angle/dt; the search
+        for the stability margin works in the normalised variable w*dt, whose range must not depend on dt)"""
+        return rng.choice(DT_LEGACY) if rng.random() < 0.55 else rng.choice(DT_WIDE)
+
+    def add_wscale(self, rng, case, p):
+        """with probability p make the continuous-time loop L0(s/a), a = 2^k (exact in binary64): dynamics and
+        crossover frequencies of the order 1e-12 .. 1e12 rad per time unit"""
+        if case["dt"] == "C" and rng.random() < p:
+            k = rng.choice(WSCALES)
+            q = len(case["den"]) - 1
+            if abs(k) * (4 * q - 1) > 800:     # keep a^(4q-1) (coefficients of n'd - d'n) inside binary64
+                k = 30 if k > 0 else -30
+            case["wscale"] = k
+            case["norm"] = rng.choice(["monic", "const"])
+            case["form"] = "tf"                # tf2ss of badly scaled coefficients is not this property's business
+        return case
+
     def gen_sm(self, rng, tier):
         disc = rng.random() < 0.35
         num, den = self.rnd_loop(rng, disc, 5 if tier == "quick" else 6)
-        dt = rng.choice(["T", "D1/2", exact.dt_tok(0.1)]) if disc else "C"
+        dt = self.rnd_dt(rng) if disc else "C"
         if disc and rng.random() < 0.04:    # tiny gain: the numerical-inaccuracy fallback decision
             num = [tok(Fraction(x) / 16384) for x in num]
         api = rng.choice(["stability_margins"] * 6 + ["margin", "pcf"])
@@ -430,16 +593,16 @@ class C12(Family):
                 "method": rng.choice(["best", "best", "poly"]) if api == "stability_margins" else "best"}
         if case["form"] == "ss" and len(num) >= len(den) + 1:
             case["form"] = "tf"
-        return case
+        return self.add_wscale(rng, case, 0.3)
 
     def gen_bw(self, rng, tier):
         disc = rng.random() < 0.35
         num, den = self.rnd_loop(rng, disc, 4)
-        dt = rng.choice(["T", "D1/2", exact.dt_tok(0.1)]) if disc else "C"
-        return {"kind": "bw", "num": num, "den": den, "dt": dt,
-                "form": "ss" if rng.random() < 0.2 else "tf",
-                "via": rng.choice(["method", "func"]),
-                "dbdrop": rng.choice(["-3", "-3", "-3", "-6", "-1/2", "-20", "0", "3"])}
+        dt = self.rnd_dt(rng) if disc else "C"
+        return self.add_wscale(rng, {"kind": "bw", "num": num, "den": den, "dt": dt,
+                                     "form": "ss" if rng.random() < 0.2 else "tf",
+                                     "via": rng.choice(["method", "func"]),
+                                     "dbdrop": rng.choice(["-3", "-3", "-3", "-6", "-1/2", "-20", "0", "3"])}, 0.2)
 
     def generate(self, rng, tier):
         n = 1000 if tier == "quick" else 15000
@@ -474,6 +637,27 @@ class C12(Family):
             sm(["1/2", "1/4"], ["1", "-3/2", "1/2"], "T", returnall=False),
             sm(["1", "0", "0"], ["1", "1/2"], "T"),               # non-proper discrete: raises
             sm(["1/8", "-5/32", "3/64"], ["1", "-1/4", "-1/4", "-1/2"], "T", returnall=False, method="poly"),
+            # sampling period > 1: the closest approach to -1 lies at w*dt > pi/dt (C12-m4)
+            sm(["5"], ["1", "0"], "D2", returnall=False, method="poly"),
+            sm(["1/2"], ["1", "5/4", "13/16"], "D2", returnall=False, method="poly"),
+            sm(["1/2"], ["1", "5/4", "13/16"], "D64", method="poly"),
+            sm(["1/2"], ["1", "5/4", "13/16"], "D1/1024", returnall=False, form="ss"),
+            # discrete stability margin that is not the minimum of |1+L| (known finding), and a missing one
+            sm(["-3", "-3"], ["1", "-1/4", "-3/4"], "T", returnall=False, method="poly"),
+            sm(["-10", "-5", "35/4", "25/4"], ["1", "1/2", "-9/16", "-21/32", "-9/32"], "T"),
+            sm(["2", "2"], ["1", "3/2", "13/16", "1/8"], "T", returnall=False, method="poly"),   # local minimum
+            # time-scaled loops L0(s/a): crossover frequencies around 1e-9 / 1e9 rad per time unit (C12-m5)
+            sm(["1"], ["1", "2", "3"], wscale=-30, norm="const"),
+            sm(["1"], ["1", "2", "1", "0"], wscale=-30, norm="monic"),
+            sm(["1"], ["1", "2", "1", "0"], wscale=-34, norm="monic", returnall=False),
+            sm(["10", "1", "10"], ["1", "1", "4", "2", "0"], wscale=-30, norm="monic"),
+            sm(["10", "1", "10"], ["1", "1", "4", "2", "0"], wscale=30, norm="const", returnall=False, epsw="1/2"),
+            sm(["1"], ["1", "2", "3", "4"], wscale=-30, norm="monic", api="pcf", returnall=False),
+            sm(["1/2"], ["1", "3", "3", "1"], wscale=-40, norm="const", api="margin", returnall=False),
+            bw(["1"], ["1", "1"], wscale=30, norm="monic"),
+            bw(["1"], ["1", "1"], wscale=-10, norm="monic"),
+            bw(["1"], ["1", "1"], wscale=-24, norm="monic"),      # absolute xtol of the bisection (known finding)
+            bw(["1"], ["1", "1"], wscale=-30, norm="monic"),      # grid starts above the bandwidth (known finding)
         ]
 
     # ---- execution ------------------------------------------------------------------------------
@@ -502,7 +686,7 @@ class C12(Family):
             try:
                 if case["api"] == "stability_margins":
                     r = ct.stability_margins(sys, returnall=case["returnall"],
-                                             epsw=float(Fraction(case["epsw"])), method=case["method"])
+                                             epsw=float(eff_epsw(case)), method=case["method"])
                     keys = ("gm", "pm", "sm", "wpc", "wgc", "wms")
                     if case["returnall"]:
                         impl = {"ok": {k: [fl(x) for x in np.atleast_1d(v)] for k, v in zip(keys, r)}}
@@ -525,8 +709,9 @@ class C12(Family):
                  "mag1": "_poly_z_mag1_crossing" if disc else "_poly_iw_mag1_crossing",
                  "wstab": "_poly_iw_wstab"}
         roots_for, polycmp = {}, {}
-        bits = max([max(abs(c.numerator).bit_length(), c.denominator.bit_length())
-                    for p in polys.values() for c in p] + [1])
+        # regime E needs every product / sum of margins.py to be exact in binary64: judged by the widest binary
+        # mantissa among the exact test polynomials (the exponent does not matter: time-scaled loops are exact)
+        bits = max([mant_bits(c) for p in polys.values() for c in p] + [1])
         info["bits"] = bits
         for which, want in polys.items():
             got = rec.roots.get(names[which])
@@ -557,15 +742,15 @@ class C12(Family):
             for z in np.atleast_1d(roots_for[which]):
                 zz = (fr(z.real), fr(z.imag))
                 vr, vi = ceval(want, zz)
-                dr, di = ceval(np_der(want), zz)
-                sc = abs_eval(want, abs(z))
+                sc = abs_eval_exact(want, fr(abs(z)))
                 if sc > 0:
-                    worst = max(worst, math.hypot(float(vr), float(vi)) / sc)
+                    worst = max(worst, ratio(max(abs(vr), abs(vi)), sc))
         info["roots_rel_residual"] = worst
         # completeness of the root finder (its contract): exact Sturm count of the distinct real
         # roots of the test polynomial in [epsw, oo) / (epsw, oo) vs the recorded real roots there
         if not disc and bits <= 50:
-            ew = Fraction(case["epsw"])
+            ew = eff_epsw(case)
+            unit = unit_of(case)
             sturm = {}
             for which, want in polys.items():
                 if len(strip_lead(want)) > 26:
@@ -573,7 +758,7 @@ class C12(Family):
                 closed = which == "real"
                 rr = sorted(float(z.real) for z in np.atleast_1d(roots_for[which]) if z.imag == 0
                             and (z.real >= float(ew) if closed else z.real > float(ew)))
-                distinct = sum(1 for i, x in enumerate(rr) if i == 0 or abs(x - rr[i - 1]) > 1e-6 * max(1.0, abs(x)))
+                distinct = sum(1 for i, x in enumerate(rr) if i == 0 or abs(x - rr[i - 1]) > 1e-6 * max(unit, abs(x)))
                 if sturm_count_from(want, ew, closed) == distinct:
                     sturm[which] = "match"
                 elif len(p_gcd(want, np_der(want))) > 1:
@@ -582,18 +767,36 @@ class C12(Family):
                     sturm[which] = "MISMATCH"
             info["sturm"] = sturm
         if disc:
-            zstab = []
-            if rec.minimize is not None and rec.minimize[0]:
-                zstab = list(np.exp(1J * rec.minimize[1]))
+            zstab, wdt_stab = [], []
+            if rec.minimize is not None:
+                if rec.minimize[0]:
+                    wdt_stab = [float(x) for x in rec.minimize[1]]
+                info["sm_search"] = {"x0": rec.minimize_x0, "bounds": rec.minimize_bounds,
+                                     "x": [float(x) for x in rec.minimize[1]], "success": rec.minimize[0]}
+            elif impl is not None and "ok" in impl and case["api"] == "stability_margins":
+                # the minimiser of |1+L| was not obtained from scipy.optimize.minimize: take the reported frequency
+                wl = impl["ok"]["wms"] if case["returnall"] else [impl["ok"]["wms"]]
+                wdt_stab = [unfl(x) * float(sys.dt) for x in wl if math.isfinite(unfl(x))]
+                info["sm_search"] = None
+            zstab = list(np.exp(1J * np.array(wdt_stab))) if wdt_stab else []
             info["minimize"] = None if rec.minimize is None else rec.minimize[0]
             info["zstab"] = [[fl(z.real), fl(z.imag)] for z in zstab]
-            info["wdt_stab"] = [float(x) for x in rec.minimize[1]] if zstab else []
-            line = "mg smd %s %s %s %s %s %s %s" % (
+            info["wdt_stab"] = wdt_stab
+            # candidates for the minimality check of the discrete stability margin (points exactly on |z| = 1)
+            wit = []
+            if polys and case["api"] == "stability_margins":
+                try:
+                    wit = [circle_point(t) for t in sm_witness_angles(num, den)]
+                except Exception:  # noqa
+                    wit = []
+            info["n_witness"] = len(wit)
+            line = "mg smd %s %s %s %s %s %s %s %d%s" % (
                 toks(num), toks(den), toks([fr(e) for e in EPS_TABLE]), tok(TOL2),
-                ctoks(roots_for.get("real", [])), ctoks(roots_for.get("mag1", [])), ctoks(zstab))
+                ctoks(roots_for.get("real", [])), ctoks(roots_for.get("mag1", [])), ctoks(zstab),
+                len(wit), "".join(" %s %s" % (tok(a), tok(b)) for a, b in wit))
         else:
             line = "mg smc %s %s %s %s %s %s" % (
-                toks(num), toks(den), case["epsw"],
+                toks(num), toks(den), tok(eff_epsw(case)),
                 ctoks(roots_for["real"]), ctoks(roots_for["mag1"]), ctoks(roots_for["wstab"]))
         info["oracle_polys"] = {k: [tok(c) for c in v] for k, v in polys.items()}
         return {"impl": impl, "line": line, "info": info}
@@ -623,6 +826,9 @@ class C12(Family):
                 pts = np.exp(1j * omega * dtv)
             else:
                 pts = 1j * omega
+        if not (np.all(np.isfinite(omega)) and np.all(np.isfinite(pts))):
+            # the frequency grid (a parameter of the model) contains nan / inf: nothing to compare with
+            return {"impl": impl, "line": "mg bw 1 1 1 1 0 -3 1 0 0", "info": {"grid_nonfinite": True}}
         rootpt = []
         if "ok" in impl and math.isfinite(float(impl["ok"])):
             w = float(impl["ok"])
@@ -695,6 +901,11 @@ class C12(Family):
         m["B"] = [[pt(), opt()] for _ in range(tk.nat())]
         assert tk.next() == "S"
         m["S"] = [[pt(), opt()] for _ in range(tk.nat())]
+        if disc:
+            assert tk.next() == "M"
+            m["M"] = [[tk.next(), tk.next()], [tk.next(), tk.next()]] if tk.nat() == 1 else None
+            assert tk.next() == "R"
+            m["R"] = [tk.nat() == 1 for _ in range(tk.nat())]
         if not disc:
             assert tk.next() == "D"
             m["D"] = [[tk.next(), tk.next()] for _ in range(tk.nat())]
@@ -707,6 +918,8 @@ class C12(Family):
     def feat(self, case, kind, **kw):
         f = {"kind": kind, "call": case["kind"] if case["kind"] == "bw" else case["api"],
              "time": "continuous" if case["dt"] == "C" else "discrete"}
+        if case.get("wscale") is not None:     # time unit of the loop: dynamics around 2^wscale rad per unit
+            f["timescale"] = "slow" if int(case["wscale"]) < 0 else "fast"
         f.update(kw)
         return f
 
@@ -716,7 +929,10 @@ class C12(Family):
         if info.get("build_failed"):
             return Verdict(DIFFERS, "system construction failed: " + impl.get("exc", ""),
                            self.feat(case, "build"))
-        if case["kind"] == "bw":
+        if info.get("grid_nonfinite"):
+            v = Verdict(AGREE, "guarded: _default_frequency_range returned non-finite samples",
+                        {"guard": "bw-grid-nonfinite"})
+        elif case["kind"] == "bw":
             v = self.compare_bw(case, impl, model, info)
         else:
             v = self.compare_sm(case, impl, model, info)
@@ -737,6 +953,16 @@ class C12(Family):
                 return Verdict(AGREE, "guarded: state-space form with a pole at the DC point (singular solve)",
                                {"guard": "ss-singular-dc"})
         if m["kind"] == "bracket" and m["k"] == 0:
+            if "err" in impl and float(Fraction(m["gap"])) >= 1e-6:
+                # the grid of _default_frequency_range starts above the bandwidth (seen for dynamics slower than
+                # 1e-8 rad per time unit, which the grid construction discards as 'zero'): the bracket
+                # [omega[-1], omega[0]] is no bracket
+                msg = impl["exc"].split(":", 1)[1].strip()[:50]
+                return Verdict(VIOLATES, "bandwidth raises %s: the first sample of the frequency grid (w = %r) is "
+                               "already below |dc|*10^(dbdrop/20), dc gain %s" % (
+                                   impl["exc"], float(info["omega"][0]), float(Fraction(m["dc"]))),
+                               self.feat(case, "bw-raises", exc=impl["exc"].split(":")[0], msg=msg,
+                                         grid="first-sample-below-threshold"))
             return Verdict(AGREE, "guarded: first grid sample already below the threshold", {"guard": "bw-k0"})
         if "err" in impl:
             msg = impl["exc"].split(":", 1)[1].strip()[:50]
@@ -789,16 +1015,16 @@ class C12(Family):
         """True when some evaluation of num/den at a selected point is ill-conditioned"""
         for p in pts:
             z = (Fraction(p[0]), Fraction(p[1])) if disc else (F0, Fraction(p))
-            r = math.hypot(float(z[0]), float(z[1]))
+            r = fr(math.hypot(float(z[0]), float(z[1])))
             for poly in (num, den):
                 vr, vi = ceval(poly, z)
-                mag = math.hypot(float(vr), float(vi))
-                sc = abs_eval(poly, r)
+                mag = max(abs(vr), abs(vi))
+                sc = abs_eval_exact(poly, r)
                 if mag == 0:
                     if sc != 0 and r != 0:
                         return True
                     continue
-                if sc / mag > COND_MAX:
+                if ratio(sc, mag) > COND_MAX:
                     return True
         return False
 
@@ -847,6 +1073,13 @@ class C12(Family):
                         return Verdict(VIOLATES, "gm = %r reported at wpc = %r for a loop with a pole at z = 1: "
                                        "the loop response does not exist there (no crossing)" % (g, w),
                                        self.feat(case, "spurious-crossing-at-dc-pole"))
+        # ---- discrete stability margin: the reported value must be the minimum of |1+L| over the unit circle
+        # (decided exactly by the model on candidate points of the circle; independent of the guards below,
+        # which concern the crossings) ----
+        if disc and case["api"] == "stability_margins":
+            v = self.check_sm_minimum(case, m, info, num, den)
+            if v is not None:
+                return v
         # ---- guards (conditioning of the case; decided on the model's exact data) ----
         if info.get("bits", 0) > 50 and "DIFFERENT" in info.get("polycmp", {}).values():
             return Verdict(AGREE, "guarded: non-dyadic coefficients (state-space conversion) and the rounded test "
@@ -866,8 +1099,8 @@ class C12(Family):
             ts = [Fraction(x) for x in m["polys"]["wstab"]]
             dts = np_der(ts)
             for (w, val) in m["D"]:
-                sc = abs_eval(dts, abs(float(Fraction(w))))
-                if sc > 0 and abs(float(Fraction(val))) < 1e-7 * sc:
+                sc = abs_eval_exact(dts, abs(Fraction(w)))
+                if sc > 0 and abs(Fraction(val)) < Fraction(1, 10 ** 7) * sc:
                     return Verdict(AGREE, "guarded: second-derivative sign undecided", {"guard": "d2-sign"})
 
         def freq(p):
@@ -886,29 +1119,104 @@ class C12(Family):
         else:
             S = [(freq(c[0]), cx(c[1])) for c in m["S"]]
         X = [(freq(c[0]), cx(c[1])) for c in m["X"]]
+        unit = unit_of(case)
         for lst in (A, B, S):
             ws = sorted(w for w, _ in lst)
             for a, b in zip(ws, ws[1:]):
-                if abs(a - b) <= 1e-6 * max(1.0, abs(b)):
+                if abs(a - b) <= 1e-6 * max(unit, abs(b)):
                     return Verdict(AGREE, "guarded: two crossings closer than 1e-6 (not simple)",
                                    {"guard": "double-crossing"})
         if case["api"] == "pcf":
-            return self.compare_pcf(case, impl, X)
+            return self.compare_pcf(case, impl, X, unit)
         exp = {"gm": [gm_of(r) for _, r in A], "wpc": [w for w, _ in A],
                "pm": [math.nan if r is None else pm_of(r) for _, r in B], "wgc": [w for w, _ in B],
                "sm": [math.nan if r is None else sm_of(r) for _, r in S], "wms": [w for w, _ in S]}
         if case["returnall"]:
-            return self.compare_all(case, impl["ok"], exp)
-        return self.compare_default(case, impl["ok"], exp, A, B, S, m["idx"])
+            return self.compare_all(case, impl["ok"], exp, unit)
+        return self.compare_default(case, impl["ok"], exp, A, B, S, m["idx"], unit)
 
-    def compare_pcf(self, case, impl, X):
+    def check_sm_minimum(self, case, m, info, num, den):
+        """None, or the VIOLATES verdict "the reported discrete stability margin is not the minimum of |1+L|".
+        Decided by the model: `R[i]` = the i-th reported minimiser is refuted by the best candidate `M` on the
+        unit circle (exact comparison of |1+L|^2); reported only with the margin TAU_MIN."""
+        info["sm_min"] = "n/a"
+        if m.get("M") is None:
+            info["sm_min"] = "no-candidate"
+            return None
+        zw, rw = m["M"]
+        rwx = (Fraction(rw[0]), Fraction(rw[1]))
+        sm_w = sm_of(rwx)
+        if sm_w < SM_ZERO:
+            info["sm_min"] = "guard:closed-loop-pole-on-circle"
+            return None
+        # how the search was set up and how it ended (features only: they tell a failure of the search the code
+        # documents - start at the best of 100 geometric samples of (1e-4, 2 pi), range [0, 2 pi] - from a
+        # different search)
+        srch = info.get("sm_search")
+        nf = np.array([float(c) for c in num])
+        df = np.array([float(c) for c in den])
+
+        def f(t):
+            with np.errstate(all="ignore"):
+                z = np.exp(1j * np.asarray(t, dtype=float))
+                v = np.abs(1 + np.polyval(nf, z) / np.polyval(df, z))
+            return np.where(np.isfinite(v), v, np.inf)
+        if srch is None:
+            rng_feat, mode, start = "unrecorded", "unrecorded", "unrecorded"
+        else:
+            b = srch.get("bounds")
+            if b is None:
+                rng_feat = "unbounded"
+            elif b[0] <= 1e-4 and b[1] >= math.pi * (1 - 1e-12):
+                rng_feat = "covers-half-circle"
+            else:
+                rng_feat = "misses-part-of-half-circle"
+            x0 = srch.get("x0")
+            start = "other"
+            if x0 is not None and len(x0) == 1:
+                g = np.geomspace(1e-4, 2 * np.pi, num=100)
+                xd = float(g[int(np.argmin(f(g)))])
+                if abs(x0[0] - xd) <= 1e-12 * xd:
+                    start = "best-of-documented-grid"
+            if not srch.get("success"):
+                mode = "minimiser-failed"
+            elif x0 is not None and len(x0) == 1 and len(srch["x"]) == 1 and abs(srch["x"][0] - x0[0]) <= 1e-3:
+                mode = "stalled-at-start"
+            else:
+                x = srch["x"][0]
+                fx = float(f(x))
+                lo = min(float(f(max(x - 1e-3, 0.0))), float(f(x + 1e-3)))
+                mode = "moved-to-local-minimum" if lo >= fx - 1e-6 * max(1.0, fx) else "moved-to-non-stationary-point"
+        th_w = math.atan2(float(Fraction(zw[1])), float(Fraction(zw[0])))
+        dtv = float(dt_value(case["dt"]))
+        S = [c for c in m["S"]]
+        if not S:
+            info["sm_min"] = "missing"
+            return Verdict(VIOLATES, "no stability margin reported (sm = inf / empty), but |1+L| = %r at w*dt = %r "
+                           "(w = %r) on the unit circle; search: %r" % (sm_w, th_w, th_w / dtv, srch),
+                           self.feat(case, "sm-missing", range=rng_feat, start=start, mode=mode))
+        vals = [(sm_of((Fraction(c[1][0]), Fraction(c[1][1]))), i) for i, c in enumerate(S) if c[1] is not None]
+        if not vals:
+            return None
+        sm_rep, i = min(vals)
+        if m["R"][i] and sm_rep > sm_w * (1 + TAU_MIN):
+            info["sm_min"] = "refuted"
+            return Verdict(VIOLATES, "stability margin %r at w*dt = %r is not the minimum of |1+L| over the unit "
+                           "circle: |1+L| = %r at w*dt = %r (w = %r, dt = %r); search handed to "
+                           "scipy.optimize.minimize: %r" % (sm_rep, info["wdt_stab"][i] if i < len(info["wdt_stab"])
+                                                           else None, sm_w, th_w, th_w / dtv, dtv, srch),
+                           self.feat(case, "sm-not-minimum", range=rng_feat, start=start, mode=mode))
+        info["sm_min"] = "minimum" if not m["R"][i] or sm_rep <= sm_w * (1 + 1e-7) else "within-tolerance"
+        return None
+
+    def compare_pcf(self, case, impl, X, unit=1.0):
         om = [unfl(x) for x in impl["ok"]["omega"]]
         g = [unfl(x) for x in impl["ok"]["gains"]]
         if len(om) != len(X):
             return Verdict(VIOLATES, "phase_crossover_frequencies returns %d frequencies, the test polynomial has "
                            "%d admissible real roots" % (len(om), len(X)), self.feat(case, "pcf-count"))
         for (w, gi), (we, r) in zip(sorted(zip(om, g)), sorted(X, key=lambda c: c[0])):
-            if not close_rel(w, we, 1e-7):
+            if not close_rel(w, we, 1e-7, unit):
                 return Verdict(VIOLATES, "crossover frequency %r, expected %r" % (w, we), self.feat(case, "pcf-freq"))
             if r is None:
                 continue
@@ -917,7 +1225,7 @@ class C12(Family):
                                self.feat(case, "pcf-gain"))
         return Verdict(AGREE)
 
-    def compare_all(self, case, got, exp):
+    def compare_all(self, case, got, exp, unit=1.0):
         pairs = (("gm", "wpc", "phase-crossing"), ("pm", "wgc", "gain-crossing"), ("sm", "wms", "stab"))
         order_only = None
         for (vk, wk, name) in pairs:
@@ -931,7 +1239,7 @@ class C12(Family):
                                "%d (%r)" % (wk, len(gw), gw, len(ew), ew), self.feat(case, kind, returnall=True))
             gs, es = sorted(zip(gw, gv)), sorted(zip(ew, ev))
             for (w, v), (we, ve) in zip(gs, es):
-                if not close_rel(w, we, 1e-7):
+                if not close_rel(w, we, 1e-7, unit):
                     return Verdict(VIOLATES, "%s %r, expected %r" % (wk, w, we),
                                    self.feat(case, name + "-freq", returnall=True))
                 ok = close_deg(v, ve) if vk == "pm" else close_rel(v, ve, TAU)
@@ -944,7 +1252,7 @@ class C12(Family):
             return Verdict(DIFFERS, "%s not sorted" % order_only, self.feat(case, "order"))
         return Verdict(AGREE)
 
-    def compare_default(self, case, got, exp, A, B, S, idx):
+    def compare_default(self, case, got, exp, A, B, S, idx, unit=1.0):
         gi, pi, si = idx
         if pi == -2 or si == -2:
             return Verdict(AGREE, "guarded: a response does not exist at a crossing", {"guard": "pole-at-crossing"})
@@ -968,7 +1276,7 @@ class C12(Family):
                 continue
             v, w = unfl(got[vk]), unfl(got[wk])
             okv = close_deg(v, want[vk]) if vk == "pm" and math.isfinite(want[vk]) else close_rel(v, want[vk], TAU)
-            okw = close_rel(w, want[wk], 1e-7)
+            okw = close_rel(w, want[wk], 1e-7, unit)
             if okv and okw:
                 continue
             # which part of the property fails?
@@ -992,7 +1300,7 @@ class C12(Family):
             return False
         order = len(case["den"]) - 1
         nondefault = case.get("returnall") or case.get("epsw", "0") != "0" or case["dt"] != "C" \
-            or case.get("form") == "ss" or case.get("dbdrop", "-3") != "-3"
+            or case.get("form") == "ss" or case.get("dbdrop", "-3") != "-3" or case.get("wscale") is not None
         return order >= 2 or bool(nondefault)
 
     def stats(self, case, impl, model):
@@ -1000,7 +1308,13 @@ class C12(Family):
         st = {"kind": case["kind"], "time": "C" if case["dt"] == "C" else "D", "form": case.get("form"),
               "guard": info.get("guard", "?"),
               "order": len(case["den"]) - 1,
-              "gain_sign": "neg" if Fraction(case["num"][0]) < 0 else "pos"}
+              "gain_sign": "neg" if Fraction(case["num"][0]) < 0 else "pos",
+              "wscale": "2^%s" % case["wscale"] if case.get("wscale") is not None else "1"}
+        if case["dt"] != "C":
+            dtv = float(dt_value(case["dt"]))
+            st["dt"] = "1" if dtv == 1 else ("<1" if dtv < 1 else ">1")
+            if case["kind"] == "sm":
+                st["sm_min"] = info.get("sm_min", "n/a")
         if case["kind"] == "sm":
             st["api"] = case["api"] + ("/all" if case["returnall"] else "")
             if "ok" in model:
@@ -1038,6 +1352,15 @@ class C12(Family):
                 for r in (F0, F1, -F1, Fraction(int(q)), q / 2):
                     if r != q and len(tok(r)) <= len(x):
                         yield lst[:i] + [tok(r)] + lst[i + 1:]
+        if case.get("wscale") is not None:
+            c = dict(case)
+            c.pop("wscale")
+            c.pop("norm", None)
+            yield c
+            if case.get("norm") != "monic":
+                c = dict(case)
+                c["norm"] = "monic"
+                yield c
         for k, v in (("form", "tf"), ("method", "poly"), ("epsw", "0"), ("via", "method"), ("dt", "T")):
             if k in case and case[k] != v and not (k == "dt" and case["dt"] == "C"):
                 c = dict(case)
